@@ -1,6 +1,7 @@
 (* Properties/C06.v -- C06: the returned deformation gradient solves dF/dt = L.F *)
 From Coq Require Import Reals ZArith List.
-From PV Require Import Num NumR Model_core Model_minerals Proofs_core Proofs_minerals Proofs_rhs.
+From Coquelicot Require Import Hierarchy Derive.
+From PV Require Import Num NumR Model_core Model_minerals Proofs_core Proofs_minerals Proofs_rhs Proofs_flow.
 Import ListNotations.
 Open Scope R_scope.
 
@@ -33,6 +34,11 @@ Theorem C06_returned_F_is_F_block : forall n chi (prev : @snapshot NumR) (y : li
   length y = (9 + 10 * n)%nat -> fst (@update NumR n chi prev y) = firstn 9 y.
 Proof. exact update_returns_F_block'. Qed.
 
+(* along any exact solution of dF/dt = L(t).F: (det F)' = tr L . det F *)
+Theorem C06_det_rate : forall (F L : nat -> R -> R) (t : R),
+  (forall i j, (i < 3)%nat -> (j < 3)%nat -> is_derive (F (3 * i + j)%nat) t (LF F L t i j)) ->
+  is_derive (detF F) t ((L 0%nat t + L 4%nat t + L 8%nat t) * detF F t).
+Proof. exact det_rate. Qed.
 (* d/dt det F = tr L . det F : the algebraic identity behind det F = exp(int tr L) *)
 Theorem C06_det_rate_identity : forall (L F : list R), length L = 9%nat -> length F = 9%nat ->
   det_rate9 F (@mat_mul9 NumR L F) = trace9 L * det9 F.
